@@ -221,6 +221,11 @@ def case_reader(ctx, kind, sym_gain, sort, cbin, tier, band="ap"):
     # 5. read / read_samples
     got = ctx.call("read_samples", lambda: sr.read_samples(0, 2, channels=None))
     _compare(ctx, "read_samples", got[0], CAL[0:2], {})
+    # numpy slicing convention for every pair of bounds, the empty ones included (stop 0, stop before start)
+    for a in range(-1, ns + 1):
+        for bb in range(-1, ns + 2):
+            got = ctx.call("read_samples", lambda: sr.read_samples(a, bb))
+            _compare(ctx, "read_samples_bounds", got[0] if isinstance(got, tuple) else got, CAL[a:bb], {"first": a, "last": bb})
     got = ctx.call("read", lambda: sr.read(nsel=slice(0, 2), csel=[0, n], sync=False))
     _compare(ctx, "read_list", got, CAL[0:2][..., [0, n]], {})
     # 6. sync column unscaled
@@ -370,7 +375,11 @@ for a, b, c in itertools.product(vals, vals, steps):
     cmp(f'n{{sl}}', sr[sl], CAL[sl]); cmp(f'c{{sl}}', sr[:, sl], CAL[:, sl]); cmp(f'1c{{sl}}', sr[1, sl], CAL[1, sl])
 for i in range(-ns, ns): cmp(f'n{{i}}', sr[i], CAL[i])
 for j in range(-(n + 1), n + 1): cmp(f'c{{j}}', sr[:, j], CAL[:, j]); cmp(f'1c{{j}}', sr[1, j], CAL[1, j])
-for J in ([0], [n, 0], [1, 1, 2], [-1, 0], []): cmp(f'cl{{J}}', sr[:, J], CAL[:, J]); cmp(f'1cl{{J}}', sr[1, J], CAL[1, J])
+for J in ([0], [n, 0], [1, 1, 2], [-1, 0], [], np.array([2, 0]), np.array(([True, False, True, False] + [False] * n)[:n + 1]), ([False, True] + [False] * n)[:n + 1]):
+    cmp(f'cl{{J}}', sr[:, J], CAL[:, J]); cmp(f'1cl{{J}}', sr[1, J], CAL[1, J])
+for a in range(-1, ns + 1):
+    for b in range(-1, ns + 2):
+        r = sr.read_samples(a, b); cmp(f'read_samples({{a}},{{b}})', r[0] if isinstance(r, tuple) else r, CAL[a:b])
 for I in ([0], [2, 0], [1, 1], [-1], []): cmp(f'nl{{I}}', sr[I, :], CAL[I, :]); cmp(f'nl1{{I}}', sr[I, 1], CAL[I, 1])
 cmp('rs', sr.read_samples(0, 2)[0], CAL[0:2]); cmp('sync', sr[:, n], raw[:, n])
 g = sr.geometry
